@@ -9,7 +9,15 @@
    constants are Gen_srclife, regenerated from src/source.c.
    `reach k ev ca rg g`: g is reachable from the initial state of a source of kind k with event / cancel / registration
    handlers installed as ev / ca / rg, by ANY interleaving of those steps.  All theorems below are about every such g
-   (Proofs/SrcLife_proofs.v: Inv g := GInv g /\ forall t, TInv g t, preserved by every step). *)
+   (Proofs/SrcLife_proofs.v: Inv g := GInv g /\ forall t, TInv g t, preserved by every step).
+   What kind of statements these are: all of them are SAFETY statements about reachable states and single steps, none is a
+   liveness statement.  "the cancel handler runs exactly once" is: at most once in any run, and ch_count = 1 in every state in
+   which the slot of a cancelled source has been released (that the slot is eventually released is not stated: it needs the
+   invokes _dispatch_source_wakeup asks for, C01).  "every sleeper is woken" is: a caller sleeps only with CANCEL_WAITER set
+   and DELETED clear, and the model step that sets DELETED empties the set of sleepers; finalize's flag update and its
+   FUTEX_WAKE are ONE model step (source.c:594-600 are two operations of one thread: the wake cannot be lost, it can only be
+   late, which no safety statement sees).  "converges" is: all TERMINAL states of a cancelled source (wakeup_target has
+   nothing to ask for, nobody inside a call) are the same state; that a terminal state is reached is not stated. *)
 From Coq Require Import ZArith Bool List.
 From Verif Require Import Word Conc Gen_consts Gen_fields Gen_srclife SrcLife SrcLife_phase_proofs SrcLife_proofs SrcLife_mon_proofs
   SrcLifeR SrcLifeR_proofs.
@@ -45,10 +53,14 @@ Theorem C16_deferred_unregistration_loop_is_source : forall ds opts z,
 Proof. exact gen_needs_event_loop. Qed.
 Print Assumptions C16_deferred_unregistration_loop_is_source.
 
-(* tie: the program points of the model are the atomic sites of the source, in source order: _dispatch_source_invoke2 with its
-   inlined callees (43 sites, cut into the phases OA1 .. OP5), _dispatch_source_wakeup (13), dispatch_source_cancel,
-   dispatch_source_cancel_and_wait (17), finalize_unregistration and refs_unregister; regenerated from src/source.c on every
-   run, so an atomic operation added, dropped or moved in these functions breaks the equality *)
+(* source-drift guard (NOT a tie of the model's behaviour): SrcLife.phase_sites / model_sites_* is a hand-written annotation
+   table that lists, per program point of the model, the atomic operations of the source the point stands for;
+   `phase`, `gstep` and `mon_step` do not use the table, so the theorem says nothing about what the model does at a point.
+   What it does give: the generated site lists (_dispatch_source_invoke2 with its inlined callees, 43 sites, cut into the
+   phases OA1 .. OP5; _dispatch_source_wakeup, 13; dispatch_source_cancel; dispatch_source_cancel_and_wait, 17;
+   finalize_unregistration; refs_unregister) are regenerated from src/source.c on every run, so an atomic operation added,
+   dropped or moved in these functions breaks the equality and the check stops until the model has been looked at again.
+   The ties of the behaviour are the rmw lemmas above, the monitor and the global replay. *)
 Theorem C16_sites_match_source :
   model_sites_invoke2 = f_dispatch_source_invoke2_sites /\ model_sites_wakeup = f_dispatch_source_wakeup_sites /\
   model_sites_cancel = dispatch_source_cancel_sites /\ model_sites_caw = dispatch_source_cancel_and_wait_sites /\
@@ -114,8 +126,8 @@ Proof. exact cancel_handler_start. Qed.
 Print Assumptions C16_after_last_event_and_unregistration.
 
 (* an event handler invocation starts only from the committed point of the lock owner, on the target queue, and only while
-   the cancel handler has not run: no event handler invocation starts after the cancel handler (C16_on_target_queue is the
-   o_q g = QTarget conjunct here and above) *)
+   the cancel handler has not run: no event handler invocation starts after the cancel handler (that both callouts run on the
+   target queue is the o_q g = QTarget conjunct here and above) *)
 Theorem C16_no_event_after_cancel_handler : forall k ev ca rg g t a g' acts,
   reach k ev ca rg g -> gstep g t a = Some (g', acts) -> count AEhBegin acts <> 0 ->
   ch_count g = 0 /\ o_pc g = OLatch /\ o_q g = QTarget /\ owner g = Some t /\ late_starts g = 0 /\
@@ -161,8 +173,10 @@ Print Assumptions C16_event_delivery_never_finalizes.
    thread trace of dq_atomic_flags events and callout marks is run through): every step of gstep taken by thread t, seen as
    the events SrcLife.emit, is accepted by t's monitor, and the relation mrel between the model's view of t and the monitor
    state is kept; the monitors of the other threads are not concerned.  Hence the monitor never rejects a behaviour of the
-   model.  thread_ok: a thread is in one call at a time (it does not activate / invoke the source from inside cancel_and_wait's
-   wait loop, and that wait loop runs outside the drain lock).
+   model.  thread_ok: a thread is in one call at a time (it does not activate / invoke / cancel / release the source from inside
+   cancel_and_wait's wait loop, that wait loop runs outside the drain lock, and the thread that is inside an invoke calls
+   cancel only out of one of the source's callouts and does not drop the last reference there).  After its own fetch-or of
+   CANCELED or RELEASED the monitor forgets what the thread had read: a callout or a write of the word needs a new read.
    The converse is NOT claimed and is false: the monitor watches one thread and one word; it accepts e.g. an event handler
    start whenever that thread's last read had no CANCELED, whatever the other words and threads did; enabling conditions that
    depend on shared state are the business of the global replay below. *)
@@ -180,9 +194,14 @@ Theorem C16_monitor_run_is_conform : forall k evs m m' i,
 Proof. exact mrun_run_trace. Qed.
 Print Assumptions C16_monitor_run_is_conform.
 
-(* the global replay (Model/SrcLifeR.v, lib/props/c16r.py): the state the replay of a recorded round reports and judges is
-   SrcLife.grun of the acts the scheduler performed, hence a reachable state of the model whatever the scheduler did; and
-   the boolean invariant evaluated on it is true on every reachable state *)
+(* the global replay (Model/SrcLifeR.v, lib/props/c16r.py).  What is proved is small: C16_replay_reach is definitional
+   (replay_state := grun init (acts the scheduler performed), and grun only follows gstep), so it holds for ANY list of acts and
+   says nothing about the recording.  That the recorded observations ARE those steps (every observation consumed, in an
+   order consistent with the recording, as a model step enabled there with the recorded values) is established by the
+   executable scheduler SrcLifeR.sched / fmatch / adv (SrcLifeR.v:162-600, evaluated inside Coq, NOT proved correct) and by the
+   comparison of the end state with the recorded final state in lib/props/c16r.py: that part is testing, and its trusted base
+   is the scheduler.  C16_inv_b_sound: the boolean invariant is true on every reachable state; evaluated on the end state of a
+   replay (the end state only) it therefore cannot fail: it is a self-check of the tooling, not evidence about the library. *)
 Theorem C16_replay_reach : forall k ev ca rg ts ord g,
   replay_state k ev ca rg ts ord = Some g -> reach k ev ca rg g.
 Proof. exact replay_reach. Qed.
